@@ -204,15 +204,17 @@ def h_rel(mode, flags, nm, nd=None):
 def configs(tier, seed):
     q = tier == 'quick'
     cfgs = []
-    # (a)
-    va = [(1, 0, 4), (1, 9, 4), (0, 4, 4, 9), (9, 1, 2, 4)] if q else \
+    # (a)  (a flag-9 point forks over the kind and sign of both its values: kept to small configurations)
+    va = [(1, 0, 4), (1, 9, 4), (0, 4, 4, 0), (0, 1, 2, 4)] if q else \
         [v for v in itertools.product((0, 1, 2, 3, 4, 9), repeat=3) if sum(f in FITTED for f in v) >= 2 and (0 in v or 9 in v)] + \
-        [(0, 4, 4, 9), (9, 1, 2, 4), (1, 9, 0, 4, 3)]
+        [(0, 4, 4, 9), (9, 1, 2, 4), (1, 0, 0, 4, 3)]
     for v in va:
-        cfgs.append(Config('(a) ignored 2-D nm=1 flags=%s' % ''.join(map(str, v)), h_rel('a', v, 1), 1500))
-    for v in ([(4, 9), (0, 1, 4)] if q else [(4, 9), (0, 1, 4), (4, 0), (1, 9, 3)]):
-        cfgs.append(Config('(a) ignored 3-D nm=1 nd=2 flags=%s' % ''.join(map(str, v)), h_rel('a', v, 1, 2), 1500))
-    cfgs.append(Config('(a) ignored 2-D nm=2 flags=149', h_rel('a', (1, 4, 9), 2), 3000))
+        cfgs.append(Config('(a) ignored 2-D nm=1 flags=%s' % ''.join(map(str, v)), h_rel('a', v, 1), 3000))
+    for v in ([(4, 0), (0, 1, 4)] if q else [(4, 0), (0, 1, 4), (4, 9), (1, 0, 3)]):
+        cfgs.append(Config('(a) ignored 3-D nm=1 nd=2 flags=%s' % ''.join(map(str, v)), h_rel('a', v, 1, 2), 3000))
+    cfgs.append(Config('(a) ignored 2-D nm=2 flags=140', h_rel('a', (1, 4, 0), 2), 3000))
+    if not q:
+        cfgs.append(Config('(a) ignored 2-D nm=2 flags=149', h_rel('a', (1, 4, 9), 2), 6000))
     # (b) (c) (d) (e)
     lim = [(1, 4, 2), (4, 3, 1), (2, 4, 4, 3)] if q else \
         [v for v in itertools.product((1, 2, 3, 4), repeat=3) if sum(f in FITTED for f in v) >= 2 and (2 in v or 3 in v)] + [(2, 4, 4, 3)]
